@@ -633,4 +633,5 @@ SELFTESTS = [
     (rule_address_lookup, ["c06_bad.cc"], ["c06_good.cc"], "read_block"),
     (rule_crc_whole_register, ["c06_crc_bad.cc"], ["c06_crc_good.cc"], "check_block"),
     (rule_crc_whole_register, ["c06_crc_bad.cc"], ["c06_crc_good.cc"], "low_crc"),
+    (rule_track_checks_unconditional, ["c06_track_bad.cc"], ["c06_track_good.cc"], "data-size"),
 ]
